@@ -6,17 +6,18 @@ PROP = dict(
     spec_modules=["contracts.config"],
     functions=[
         dict(fn="aw_core.config._merge", scope={"keys": ["x", "y", "t"], "jvs": [1, 1.0, True, 2, "s", [1], {"n": 1}, {"n": 2, "m": 1}]}),
+        dict(fn="aw_core.config._merge", contract_key="aw_core.config._merge:d1", rt_skip=True),
         dict(fn="aw_core.config.load_config_toml", contract_key="aw_core.config.load_config_toml", bounded_only=True, budget=300,
              rt_fn="contracts.config.load_config_harness"),
     ],
     executor_flags={"jv_pyeq_mode": True},
     timeout_s=20,
-    technique="contract-based deductive verification of _merge at one nesting level (Python's == uninterpreted); run-time contract "
-              "against an executable reference for nested documents, file handling and the commented-out first-run file (bounded)",
+    technique="contract-based deductive verification of _merge at one and at two nesting levels (Python's == uninterpreted); run-time contract "
+              "against an executable reference for deeper documents, file handling and the commented-out first-run file (bounded)",
     explanation="Proved for all flat documents (no key holds a table on both sides; the recursive branch is then provably dead): the "
                 "result is the defaults' dict holding the union of keys, the default where the user sets nothing, and the user's very "
                 "value for every key the user sets - identity of values, not Python's ==, which is uninterpreted (1 == 1.0 == True); "
-                "the user's document is not modified.  Bounded (run-time contract on the real load_config_toml in a temporary config "
+                "the user's document is not modified.  Proved as well for documents with one level of tables on both sides (tables of plain values - the shape of [section] key = value files; variant :d1, tree-shaped documents: the tables are pairwise distinct objects): a key that holds a table on both sides keeps the defaults' table object, which is merged in place - every key of the user's table is in it with the user's very value, and the user's tables are untouched; every other key as in the flat case.  The descent: the recursive call is met with the flat contract, whose precondition is obliged at the call and under which the function is proved not to recurse.  Bounded (run-time contract on the real load_config_toml in a temporary config "
                 "directory, generated default/user TOML documents nested up to three deep, with and without an existing file): deep merge "
                 "equals an independent reference merge with value *and type* equality, an existing file is byte-identical afterwards, the "
                 "file written on first run parses to a document that leaves the defaults unchanged.  tomlkit's grammar is trusted (T-TOML).",
@@ -28,4 +29,7 @@ MUTANTS = [
     (F, "            else:\n                # Always take", "            elif a[key] == b[key]:\n                pass\n            else:\n                # Always take", True),
     (F, "    for key in b:\n        if key in a:", "    for key in b:\n        if key not in a:", True),
     (F, "    return a\n\n\ndef _comment", "    return b\n\n\ndef _comment", True),
+    (F, "                _merge(a[key], b[key], path + [str(key)])", "                _merge(b[key], a[key], path + [str(key)])", True),   # nested tables merged the wrong way round (the user's table is overwritten)
+    (F, "                _merge(a[key], b[key], path + [str(key)])", "                pass", True),   # nested tables keep the defaults
+    (F, "            if isinstance(a[key], dict) and isinstance(b[key], dict):", "            if isinstance(a[key], dict) or isinstance(b[key], dict):", True),   # a table is merged with a plain value
 ]
